@@ -26,12 +26,12 @@ pub struct Obj {
 }
 
 #[derive(Clone, Debug)]
-enum Chunk {
+pub(crate) enum Chunk {
     Ok(Vec<u8>),
     Err(u32),
 }
 
-fn chunk_txt(cs: &[Chunk]) -> String {
+pub(crate) fn chunk_txt(cs: &[Chunk]) -> String {
     if cs.is_empty() {
         return "-".into();
     }
@@ -44,11 +44,11 @@ fn chunk_txt(cs: &[Chunk]) -> String {
         .join(",")
 }
 
-fn stream_err(e: u32) -> Error {
+pub(crate) fn stream_err(e: u32) -> Error {
     Error::internal_safe(format!("verif-stream-error-{}", e))
 }
 
-fn items(cs: &[Chunk]) -> Vec<Result<Bytes, Error>> {
+pub(crate) fn items(cs: &[Chunk]) -> Vec<Result<Bytes, Error>> {
     cs.iter()
         .map(|c| match c {
             Chunk::Ok(b) => Ok(Bytes::from(b.clone())),
@@ -57,7 +57,7 @@ fn items(cs: &[Chunk]) -> Vec<Result<Bytes, Error>> {
         .collect()
 }
 
-fn classify(e: &Error) -> String {
+pub(crate) fn classify(e: &Error) -> String {
     let cause = e.cause().to_string();
     if let Some(rest) = cause.strip_prefix("verif-stream-error-") {
         return format!("stream {}", rest);
@@ -68,12 +68,12 @@ fn classify(e: &Error) -> String {
     }
 }
 
-fn vid<T: std::fmt::Debug>(v: &T) -> u64 {
+pub(crate) fn vid<T: std::fmt::Debug>(v: &T) -> u64 {
     fnv(&format!("{:?}", v)) % 1_000_000
 }
 
 /// stock parser verdict on a complete buffer: (value id, remainder insignificant?) or invalid
-fn verdict<T: DeserializeOwned + std::fmt::Debug>(smile: bool, buf: &[u8]) -> String {
+pub(crate) fn verdict<T: DeserializeOwned + std::fmt::Debug>(smile: bool, buf: &[u8]) -> String {
     if smile {
         let mut de = serde_smile::de::Deserializer::from_slice(buf);
         match T::deserialize(&mut de) {
@@ -89,7 +89,7 @@ fn verdict<T: DeserializeOwned + std::fmt::Debug>(smile: bool, buf: &[u8]) -> St
     }
 }
 
-fn joined(cs: &[Chunk]) -> Vec<u8> {
+pub(crate) fn joined(cs: &[Chunk]) -> Vec<u8> {
     let mut v = vec![];
     for c in cs {
         match c {
@@ -199,7 +199,7 @@ fn cut(body: &[u8], parts: &[usize]) -> Vec<Chunk> {
     out
 }
 
-fn random_chunking(rng: &mut Rng, body: &[u8]) -> Vec<Chunk> {
+pub(crate) fn random_chunking(rng: &mut Rng, body: &[u8]) -> Vec<Chunk> {
     let mut out = vec![];
     let mut i = 0;
     while i < body.len() {
@@ -289,7 +289,7 @@ fn optional_case<T: DeserializeOwned + std::fmt::Debug + Send + 'static>(cs: &mu
 // ---------------- client side (C18)
 
 #[derive(Clone, Copy, Debug, PartialEq)]
-enum Kind {
+pub(crate) enum Kind {
     Empty,
     Ser,
     DefSer,
@@ -350,50 +350,62 @@ fn client_case<T: DeserializeOwned + Default + std::fmt::Debug + 'static>(cs: &m
     let body = joined(chunks);
     // for `empty`, any well-formed JSON document is tolerated: the verdict is that of IgnoredAny
     let v = if kind == Kind::Empty { verdict::<serde::de::IgnoredAny>(false, &body) } else { verdict::<T>(false, &body) };
-    let ct_json = ct == Some("application/json");
-    let ct_oct = ct == Some("application/octet-stream");
-    let k = match kind {
+    let b = run_client::<T>(kind, status, ct, chunks, false);
+    let a = run_client::<T>(kind, status, ct, chunks, true);
+    client_judge(cs, "client", &format!("decode_{}_response", kind_txt(kind)), kind, status, ct, chunks, &v, b, a);
+}
+
+pub(crate) fn kind_txt(kind: Kind) -> &'static str {
+    match kind {
         Kind::Empty => "empty",
         Kind::Ser => "ser",
         Kind::DefSer => "defser",
         Kind::Bin => "bin",
         Kind::OptBin => "optbin",
-    };
+    }
+}
+
+/// one client-side decode, blocking (`b`) and async (`a`), against the model (`resp` operation) and the statement;
+/// `v` is the stock parser's verdict on the joined body for the return type
+#[allow(clippy::too_many_arguments)]
+pub(crate) fn client_judge(cs: &mut Cases, class: &str, what: &str, kind: Kind, status: u16, ct: Option<&str>, chunks: &[Chunk], v: &str, b: Result<String, String>, a: Result<String, String>) {
+    let body = joined(chunks);
+    let ct_json = ct == Some("application/json");
+    let ct_oct = ct == Some("application/octet-stream");
+    let k = kind_txt(kind);
     let op = format!("resp {} {} {} {} {} {}", k, (status == 204) as u8, ct_json as u8, ct_oct as u8, chunk_txt(chunks), v);
-    let note = format!("decode_{}_response status {} Content-Type {:?} chunks {}", k, status, ct, chunk_txt(chunks));
-    let b = run_client::<T>(kind, status, ct, chunks, false);
-    let a = run_client::<T>(kind, status, ct, chunks, true);
+    let note = format!("{} status {} Content-Type {:?} chunks {}", what, status, ct, chunk_txt(chunks));
     let has_err = chunks.iter().any(|c| matches!(c, Chunk::Err(_)));
     match (b, a) {
         (Ok(b), Ok(a)) => {
-            cs.push(&format!("client:{}", k), op, b.clone(), true, note);
+            cs.push(&format!("{}:{}", class, k), op, b.clone(), true, note);
             if a != b {
-                cs.fail_last("client:blocking-async-differ", format!("blocking says {:?}, async says {:?}", b, a));
+                cs.fail_last(&format!("{}:blocking-async-differ", class), format!("blocking says {:?}, async says {:?}", b, a));
                 return;
             }
             let reads_body = matches!(kind, Kind::Empty | Kind::Ser | Kind::DefSer) && !(status == 204 && kind != Kind::Ser);
             if reads_body {
                 let good = ct_json && !has_err && v.ends_with(":1");
-                let got_value = b.starts_with("value") || b == "unit";
+                let got_value = b.starts_with("value") || b == "unit" || b == "default";
                 if good && !got_value {
-                    cs.fail_last("client:valid-response-rejected", format!("complete well-formed response gives {:?}", b));
+                    cs.fail_last(&format!("{}:valid-response-rejected", class), format!("complete well-formed response gives {:?}", b));
                 } else if !good && got_value {
-                    cs.fail_last("client:invalid-response-accepted", format!("{:?} returned from a response that is not a complete, correctly typed JSON document: {:?}", b, String::from_utf8_lossy(&body)));
+                    cs.fail_last(&format!("{}:invalid-response-accepted", class), format!("{:?} returned from a response that is not a complete, correctly typed JSON document (status {}, Content-Type {:?}): {:?}", b, status, ct, String::from_utf8_lossy(&body)));
                 } else if good && kind != Kind::Empty && b != format!("value {}", &v[1..v.len() - 2]) {
-                    cs.fail_last("client:wrong-value", format!("{:?} returned, document means {}", b, v));
+                    cs.fail_last(&format!("{}:wrong-value", class), format!("{:?} returned, document means {}", b, v));
                 }
             } else if status == 204 && kind != Kind::Bin && kind != Kind::Ser {
                 let want = if kind == Kind::Empty { "unit" } else { "default" };
                 if b != want {
-                    cs.fail_last("client:204", format!("204 must give {}, got {:?}", want, b));
+                    cs.fail_last(&format!("{}:204", class), format!("204 must give {}, got {:?}", want, b));
                 }
             } else if matches!(kind, Kind::Bin | Kind::OptBin) && (b == "stream") != ct_oct {
-                cs.fail_last("client:binary-content-type", format!("binary body handed out = {:?} with Content-Type {:?}", b, ct));
+                cs.fail_last(&format!("{}:binary-content-type", class), format!("binary body handed out = {:?} with Content-Type {:?}", b, ct));
             }
         }
         (b, a) => {
-            cs.push(&format!("client:{}", k), op, "panic".into(), true, note);
-            cs.fail_last("client:panic", format!("panicked: blocking {:?} async {:?}", b, a));
+            cs.push(&format!("{}:{}", class, k), op, "panic".into(), true, note);
+            cs.fail_last(&format!("{}:panic", class), format!("panicked: blocking {:?} async {:?}", b, a));
         }
     }
 }
@@ -446,7 +458,7 @@ fn json_docs() -> Vec<(&'static str, u8)> {
 pub fn cases(seed: u64, tier: Tier, client: bool) -> Cases {
     let mut rng = Rng::new(seed);
     let mut cs = Cases::new(if client { "C18" } else { "C06" });
-    let cts: [Option<&str>; 9] = [Some("application/json"), Some("application/x-jackson-smile"), Some("application/json; charset=utf-8"), Some("APPLICATION/JSON"), Some("text/plain"), Some("application/octet-stream"), Some("garbage"), None, Some("application/*")];
+    let cts: [Option<&str>; 13] = [Some("application/json+xml"), Some("application/x-jackson-smile+json"), Some("application/json+json; charset=utf-8"), Some("application/vnd.api+json"), Some("application/json"), Some("application/x-jackson-smile"), Some("application/json; charset=utf-8"), Some("APPLICATION/JSON"), Some("text/plain"), Some("application/octet-stream"), Some("garbage"), None, Some("application/*")];
     let suffixes: [&[u8]; 12] = [b"", b" ", b"\n", b"\t \r\n", b"x", b" x", b"0", b"\"", b"{", b"[1]", b"{\"a\":1}", b"\0"];
 
     // ---- read_body itself: all chunkings of short bodies, limits around the length, errors at every index
@@ -597,9 +609,10 @@ pub fn cases(seed: u64, tier: Tier, client: bool) -> Cases {
                 }
             }
         }
+        crate::ops::c18c::add(&mut cs, &mut rng, tier);
     }
     cs
 }
 
-pub const RULE_SERVER: &str = "read_body/async_read_body: every composition of a body of length 0..5 (6) into non-empty chunks, an empty chunk or a stream error inserted at every index, limits none/0/len-1/len/len+1/3. Server: 8 JSON documents of two types (Vec<i32>, a struct with an optional field) x 12 suffixes (none, whitespace, garbage, a second document, NUL) x all chunkings (<= 6 bytes) or seeded chunkings with empty chunks, limits 10 / 64 / 50 MiB; 9 Content-Type values; truncation at every offset; a stream error at every offset; 9 malformed or wrongly typed documents incl. unknown and duplicate fields; Smile documents with 7 suffixes (end marker, bytes after it, stray bytes), truncated at every offset, and sent as JSON; seeded random byte strings; required and optional bodies; blocking and async compared. The parse verdict handed to the model comes from stock serde_json / serde_smile. Oracle: handler runs iff one registered encoding is named, no stream error, size within the limit, exactly one valid document plus insignificant bytes; otherwise INVALID_ARGUMENT or the stream's own error. All cases count as non-trivial; distinct = distinct operation lines.";
+pub const RULE_SERVER: &str = "read_body/async_read_body: every composition of a body of length 0..5 (6) into non-empty chunks, an empty chunk or a stream error inserted at every index, limits none/0/len-1/len/len+1/3. Server: 8 JSON documents of two types (Vec<i32>, a struct with an optional field) x 12 suffixes (none, whitespace, garbage, a second document, NUL) x all chunkings (<= 6 bytes) or seeded chunkings with empty chunks, limits 10 / 64 / 50 MiB; 13 Content-Type values (incl. registered types with a structured-syntax suffix, which name no registered encoding); truncation at every offset; a stream error at every offset; 9 malformed or wrongly typed documents incl. unknown and duplicate fields; Smile documents with 7 suffixes (end marker, bytes after it, stray bytes), truncated at every offset, and sent as JSON; seeded random byte strings; required and optional bodies; blocking and async compared. The parse verdict handed to the model comes from stock serde_json / serde_smile. Oracle: handler runs iff one registered encoding is named, no stream error, size within the limit, exactly one valid document plus insignificant bytes; otherwise INVALID_ARGUMENT or the stream's own error. All cases count as non-trivial; distinct = distinct operation lines.";
 pub const RULE_CLIENT: &str = "read_body as for C06. Client: 12 JSON documents x 12 suffixes x chunkings (all compositions <= 5 bytes, else seeded) plus a stream error at a seeded index, x 5 response kinds (empty, serializable, default-serializable, binary, optional-binary) x status 200/204 (and 404/500 on the Content-Type sweep) x 8 Content-Type values; truncation and a stream error at every offset; blocking and async compared. Oracle: a value only from application/json + complete well-formed document of the type (any well-formed document for empty); 204 gives unit/default; binary handed out iff application/octet-stream; otherwise an error. All cases non-trivial; distinct = distinct operation lines.";
